@@ -167,6 +167,12 @@ func constInt(v ssa.Value) (int64, bool) {
 
 // upperBounded: facts prove idx < len(x) (or idx <= len(x) when inclusive).
 func upperBounded(facts core.FactSet, idx, x *core.Term, inclusive bool) (string, bool) {
+	// t + 1 <= len(x) follows from t < len(x)
+	if inclusive && idx.Op == "bin" && idx.Name == "+" && len(idx.Args) == 2 && idx.Args[1].Op == "const" && idx.Args[1].Name == "1" {
+		if w, ok := upperBounded(facts, idx.Args[0], x, false); ok {
+			return w + " ⇒ +1 within the length", true
+		}
+	}
 	is, xs := idx.String(), "len("+x.String()+")"
 	for _, f := range facts {
 		if f.Kind != "cmp" {
@@ -412,7 +418,7 @@ func (r *Run) panicSitesIn(f *ssa.Function, nilableParams map[*ssa.Parameter]boo
 					} else if !(lo == hi) {
 						// low <= high
 						ls, hs := lt.String(), ff.TB.Of(hi).String()
-						good := false
+						good := hs == "("+ls+" + 1)"
 						if kl, okl := constInt(lo); okl {
 							if kh, okh := constInt(hi); okh && kl <= kh {
 								good = true
